@@ -33,6 +33,14 @@ PROPS = {
         real=['event::CommonLoop run queues, eventfd wake-up, shutdown drain, destructor drain', 'EpollLoop', 'SelectLoop', 'EpollFdEvent/SelectFdEvent (wake-up event)'],
         stub=['kernel thread scheduling (seeded scheduler)', 'monotonic clock (virtual)', 'epoll_wait/select blocking (zero-timeout probes of the real kernel objects, EINTR and late wake-ups injected)'],
     ),
+    'C02': dict(
+        harness='c02_timers',
+        title='Loop timers / TimerPool',
+        flavours=dict(asan=dict(quick_s=30, thorough_s=600)),
+        mode='single',
+        real=['event::CommonLoop timer heap, getWaitTime/handleExpiredTimers', 'TimerEventImpl', 'eventx::TimerPool', 'EpollLoop / SelectLoop', 'base::Cabinet', 'base::ObjectPool (poisoned when parked)'],
+        stub=['monotonic clock (virtual, whole milliseconds)', 'epoll_wait/select blocking (late wake-ups and EINTR injected)'],
+    ),
 }
 
 NOT_APPLICABLE = {
@@ -44,4 +52,4 @@ NOT_APPLICABLE = {
 
 # planned in DESIGN.md §7 but whose harness is not built yet — not claimed until it is
 PENDING = {p: 'harness not built yet (planned in DESIGN.md §7); not claimed until the check exists' for p in
-           ['C02', 'C03', 'C04', 'C06', 'C09', 'C11', 'C12', 'C13', 'C14', 'C15', 'C17', 'C18', 'C20']}
+           ['C03', 'C04', 'C06', 'C09', 'C11', 'C12', 'C13', 'C14', 'C15', 'C17', 'C18', 'C20']}
